@@ -20,3 +20,5 @@ open Verif.Props.C01
 #print axioms assoc_land
 #print axioms assoc_lor
 #print axioms assoc_nullish
+#print axioms minify_derives
+#print axioms minify_derives_parsed
